@@ -824,6 +824,10 @@ def r116(rep: Report, ctx: Ctx) -> None:
              "sets of the merge node (multiset of all arriving paths)", 5)
     check_table(rep, ctx, "R1.18", TABLE,
                 ["LogicBlockHolder._check_merge_is_correct"])
+    from .walkspec import MODEL_TABLE
+    rep.rule("R1.20", "an observation keeps its counts through construction, "
+             "listing and removal (= C04 R4.8)", 8)
+    check_table(rep, ctx, "R1.20", MODEL_TABLE, list(MODEL_TABLE))
     rep.rule("R1.19", "Event -> Node keeps identity, type, loop references "
              "and flags MERGE from the predecessor sets", 4)
     check_table(rep, ctx, "R1.19", TABLE, ["create_node_from_event"])
